@@ -22,6 +22,8 @@ PROP = {'technique': 'property-based testing (rapid): sequential model-based sta
  'assumptions': ['offline notifications are paired with online notifications (the server guarantees it; stray ones are only checked for non-negativity)',
                  'per-user linearizability is checked; atomicity of one snapshot across different users is not part of the statement',
                  'e2e quiescent points rely on the server calling EventLogger.Connect/Disconnect next to LogOnlineState (5 s grace otherwise)',
+                 'a missing end-of-connection report becomes a violation only after a witnessed stall: 10 s without it, client side closed, then two fresh '
+                 'connections with fresh ids go through their full reported lifecycle on the same server while it is still missing; a failing witness = inconclusive',
                  'parked logger calls are held at most 120 ms (5x that once the client has hung up); the holds shape the schedule only, no verdict depends on them'],
  'tests': [{'name': 'TestVerifC15_Sequential', 'unit': TL, 'quick': 3000, 'thorough': 20000, 'shards_thorough': 8},
            {'name': 'TestVerifC15_Concurrent', 'unit': TL, 'race': True, 'quick': 300, 'thorough': 1500, 'shards_thorough': 8,
